@@ -275,9 +275,11 @@ def w_component_values(ops, rng, n):
 # ------------------------------------------------------------------ pattern grammar (C14 / C15)
 NAMES = ['a', 'b', 'id', 'name', 'x1', '_u', '$v']
 RXS = ['\\d+', '[a-z]+', '[^/]+', '.*', 'foo|bar', '[0-9]', 'a.c', '[^\\.]+?', 'x*', 'ab?']
-TEXTS = {'pathname': ['/', '/foo', '/bar', '/foo/', 'foo', '/a.b', '/x-y', '.', '/%41', '/\u00e9', 'baz'],
+# fixed text with every character that is special in a REGULAR EXPRESSION but not in the pattern syntax ( . ^ $ | [ ] / ):
+# when the component is compiled to a regular expression they must all be escaped
+TEXTS = {'pathname': ['/', '/foo', '/bar', '/foo/', 'foo', '/a.b', '/x-y', '.', '/%41', '/\u00e9', 'baz', '/v1|v2', '/a^b$c', '/[x]', '|', '/a|', '$', '^/'],
          'hostname': ['example', '.com', 'a.', 'b', '.', 'www.', 'xn--', 'EX'],
-         'search': ['q=', '&', 'a', 'x=1', '='], 'hash': ['f', 'top', '-'], 'protocol': ['http', 's', 'ws', 'a'],
+         'search': ['q=', '&', 'a', 'x=1', '=', 'a|b', '^a$', '[1]', 'a.b', '|'], 'hash': ['f', 'top', '-', 'a|b', '$', '[x].', '^'], 'protocol': ['http', 's', 'ws', 'a'],
          'username': ['u', 'me', '-'], 'password': ['p', 'w'], 'port': ['8', '80', '0']}
 
 
